@@ -34,6 +34,9 @@ package parser
 //@ requires PInv(p)
 //@ assume[src.nul] len(p.l.characters) > 0 ==> p.l.characters[0] != 0 && (p.l.prevToken.Type == "EOF" ==> p.l.position >= 1)
 //@ ensures[C20.parser.inv] PInv(p)
+//@ ensures[C20.next.err] (result != nil) == (p.err != nil)
+//@ ensures[C20.next.shift] old(p.err) == nil ==> p.curToken.Type == old(p.peekToken.Type)
+//@ ensures[C20.next.stuck] old(p.err) != nil ==> p.err == old(p.err) && p.curToken.Type == old(p.curToken.Type) && p.peekToken.Type == old(p.peekToken.Type)
 
 //@ func (*Parser).noPrefixParseFnError
 //@ props C20 C03
@@ -86,6 +89,7 @@ package parser
 //@ trusted
 //@ modcomps H_ E_ MD_ MV_ G_ C_
 //@ ensures result == nil || ref(result) != nil
+//@ ensures old(PInv(p)) ==> PInv(p)
 
 //@ func (*Parser).parseAssignmentValue
 //@ trusted
@@ -143,11 +147,13 @@ package parser
 //@ trusted
 //@ modcomps H_ E_ MD_ MV_ G_ C_
 //@ ghostensures result != nil ==> uf("parsedAt", int, result) == precedence
+//@ ensures old(PInv(p)) ==> PInv(p)
 
 // An infix operator parses its right operand at exactly its own binding power (so equal powers associate to the
 // left) and builds Infix(left, operator literal, right) in that order.
 //@ func (*Parser).parseInfixExpr
-//@ props C01
+//@ props C01 C20
+//@ callpre[C20.layout.newline] parseExpression: p.err != nil || p.curToken.Type != token.NEWLINE
 //@ requires p != nil
 //@ nocontract nextToken setTokenError
 //@ invariant 1: precedence == ite(old(hasprec(p.curToken.Type)), old(prec(p.curToken.Type)), LOWEST) && firstToken == old(p.curToken) && left == leftNode.(ast.Expression) && implements(leftNode, ast.Expression)
@@ -156,6 +162,51 @@ package parser
 //@ ensures[C01.infix.op] result != nil ==> result.(*ast.Infix).operator == old(p.curToken.Literal)
 //@ ensures[C01.infix.right] result != nil ==> result.(*ast.Infix).right != nil
 //@ ensures[C01.infix.power] result != nil ==> uf("parsedAt", int, result.(*ast.Infix).right) == ite(old(hasprec(p.curToken.Type)), old(prec(p.curToken.Type)), LOWEST)
+
+// ---- C20: a line may be broken after a binary operator, a pipe or a comma -----------------------------------------
+// The operand that follows is parsed by parseExpression, which does not skip newlines itself: at each of those
+// calls the current token is not a NEWLINE (or the parser is already in its error state). One obligation per
+// call site in parseInfixExpr (above), parsePipe and parseExprList; eatNewlines is the shared skipping loop.
+// Assumed: parseExpression (recursive, reached through function values) preserves the token invariant PInv -
+// the look-ahead tokens are written only by nextToken (scans above), which is proved to preserve it.
+//@ func (*Parser).eatNewlines
+//@ props C20 C03
+//@ safety
+//@ requires PInv(p)
+//@ assume[src.nul] len(p.l.characters) > 0 ==> p.l.characters[0] != 0 && (p.l.prevToken.Type == "EOF" ==> p.l.position >= 1)
+//@ invariant 1: PInv(p)
+//@ ensures[C20.parser.inv] PInv(p)
+//@ ensures[C20.layout.eaten] p.err != nil || p.curToken.Type != token.NEWLINE
+
+//@ func (*Parser).parsePipe
+//@ props C20 C03
+//@ requires PInv(p)
+//@ assume[src.nul] len(p.l.characters) > 0 ==> p.l.characters[0] != 0 && (p.l.prevToken.Type == "EOF" ==> p.l.position >= 1)
+//@ callpre[C20.layout.newline] parseExpression: p.err != nil || p.curToken.Type != token.NEWLINE
+//@ invariant 1: PInv(p)
+//@ ensures[C20.parser.inv] PInv(p)
+
+//@ func (*Parser).parseExprList
+//@ props C20 C03
+//@ requires PInv(p)
+//@ assume[src.nul] len(p.l.characters) > 0 ==> p.l.characters[0] != 0 && (p.l.prevToken.Type == "EOF" ==> p.l.position >= 1)
+//@ callpre[C20.layout.newline] parseExpression: p.err != nil || p.curToken.Type != token.NEWLINE
+//@ invariant 1: PInv(p)
+//@ invariant 2: PInv(p)
+//@ invariant 3: PInv(p)
+//@ invariant 4: PInv(p)
+//@ ensures[C20.parser.inv] PInv(p)
+
+//@ func (*Parser).parseNodeList
+//@ props C20 C03
+//@ requires PInv(p)
+//@ assume[src.nul] len(p.l.characters) > 0 ==> p.l.characters[0] != 0 && (p.l.prevToken.Type == "EOF" ==> p.l.position >= 1)
+//@ callpre[C20.layout.newline] parseNode: p.err != nil || p.curToken.Type != token.NEWLINE
+//@ invariant 1: PInv(p)
+//@ invariant 2: PInv(p)
+//@ invariant 3: PInv(p)
+//@ invariant 4: PInv(p)
+//@ ensures[C20.parser.inv] PInv(p)
 
 //@ scan[C09.globals.parser] C09 pkgglobals github.com/risor-io/risor/parser:
 
